@@ -25,3 +25,10 @@ build_harness() {
   mkdir -p "$VERIF_DIR/bin"
   (cd "$VERIF_DIR/harness" && go build -tags verif -o "$VERIF_DIR/bin/verifcheck" ./cmd/verifcheck)
 }
+
+# the same harness built with the Go race detector (secondary oracle of C08's thorough tier)
+build_harness_race() {
+  gen_gomod
+  mkdir -p "$VERIF_DIR/bin"
+  (cd "$VERIF_DIR/harness" && go build -race -tags verif -o "$VERIF_DIR/bin/verifcheck.race" ./cmd/verifcheck)
+}
